@@ -589,6 +589,10 @@ class Ledger(object):
             self.violate("C17", "I2", "%s-vs-%s" % (rq.kind, old.kind),
                          "identifier %d given to %s rid=%d while %s rid=%d (%s, addr %s) is unfinished"
                          % (mid, rq.kind, rq.rid, old.kind, old.rid, old.stage(), old.addr))
+            if old.kind == "publish" and old.qos == 2 and old.rel_tx and rq.kind == "publish":
+                self.violate("C09", "Q2", "identifier-reused-before-PUBCOMP",
+                             "identifier %d, whose PUBREL is written and whose PUBCOMP is outstanding, is given to a new PUBLISH (rid=%d)"
+                             % (mid, rq.rid))
             # attribution by id is ambiguous from here on
             self.taint_why("collision")
             self.taint("C05", "C07", "C08", "C09", "C10", "C11", "C12", "C13", "C02", "C19")
